@@ -109,6 +109,35 @@ func c07Cases() []c07Case {
 		}
 		return packet.Addr{MAC: c07MACs[mi], IP: ip}
 	}
+	// ---- a source address whose MAC is not the interface's: the ethernet source must still be the host MAC
+	foreign := net.HardwareAddr{0x02, 0x00, 0x00, 0x00, 0x09, 0x09}
+	add("ICMP4SendEchoRequest(foreign source MAC)", nil, func(x *c07Objs) error {
+		return x.s.ICMP4SendEchoRequest(packet.Addr{MAC: foreign, IP: x.nic.RouterAddr4.IP}, packet.Addr{MAC: env.MAC1, IP: c07IP4[0]}, 7, 1)
+	}, func(x *c07Objs, f []refnet.SentInfo, raw [][]byte) string {
+		i, e := one(f, "icmp4-echo")
+		if e != "" {
+			return e
+		}
+		return first(eq("src", i.SrcIP, x.nic.RouterAddr4.IP), eq("ethernet source", net.HardwareAddr(i.SrcMAC[:]), net.HardwareAddr(x.nic.HostAddr4.MAC)))
+	})
+	add("ICMP6SendEchoRequest(foreign source MAC)", nil, func(x *c07Objs) error {
+		return x.s.ICMP6SendEchoRequest(packet.Addr{MAC: foreign, IP: env.HostLLA}, packet.Addr{MAC: env.MAC1, IP: c07IP6[0]}, 7, 1)
+	}, func(x *c07Objs, f []refnet.SentInfo, raw [][]byte) string {
+		i, e := one(f, "icmp6-echo")
+		if e != "" {
+			return e
+		}
+		return first(eq("src", i.SrcIP, env.HostLLA), eq("ethernet source", net.HardwareAddr(i.SrcMAC[:]), net.HardwareAddr(x.nic.HostAddr4.MAC)))
+	})
+	add("ICMP6SendNeighborAdvertisement(foreign source MAC)", nil, func(x *c07Objs) error {
+		return x.s.ICMP6SendNeighborAdvertisement(packet.Addr{MAC: foreign, IP: env.RouterLLA}, packet.Addr{MAC: env.MAC1, IP: c07IP6[0]}, packet.Addr{MAC: env.HostMAC, IP: env.RouterLLA})
+	}, func(x *c07Objs, f []refnet.SentInfo, raw [][]byte) string {
+		i, e := one(f, "na")
+		if e != "" {
+			return e
+		}
+		return first(eq("src", i.SrcIP, env.RouterLLA), eq("ethernet source", net.HardwareAddr(i.SrcMAC[:]), net.HardwareAddr(x.nic.HostAddr4.MAC)))
+	})
 	// ---- ICMP echo
 	for mi := range c07MACs {
 		for ii := range c07IP4 {
